@@ -193,8 +193,19 @@ def surrogate_history(ops, logx=False, broadcast=True):
             else:
                 path = os.path.join(tmp, "sur")
                 grid = {}
+                OFFGRID = {"getDrivingForce": (np.array([0.010, 0.025]), np.array([925.0, 975.0])), "getInterdiffusivity": (np.array([0.010, 0.025]), np.array([925.0, 975.0])),
+                           "getTracerDiffusivity": (np.array([0.010, 0.025]), np.array([925.0, 975.0])), "getInterfacialComposition": (np.array([925.0, 975.0]), np.array([700.0, 2500.0]))}
+
                 def predictions(s):
                     o = {}
+                    for q in QUERY_ARGS:
+                        for ph in ("beta", "gamma", "alpha"):
+                            kw = {"phase": ph} if q in ("getInterdiffusivity", "getTracerDiffusivity") else {"precPhase": ph}
+                            try:
+                                r = getattr(s, q)(*OFFGRID[q], **kw)
+                                o[(q, ph, "off")] = np.concatenate([np.ravel(np.asarray(v, dtype=float)) for v in (r if isinstance(r, tuple) else (r,))])
+                            except Exception as ex:  # noqa
+                                o[(q, ph, "off")] = "exc:" + type(ex).__name__
                     for q in QUERY_ARGS:
                         for ph in ("beta", "gamma", "alpha"):
                             kw = {"phase": ph} if q in ("getInterdiffusivity", "getTracerDiffusivity") else {"precPhase": ph}
